@@ -145,6 +145,10 @@ func rootsFor(prop, tier string) []Root {
 				rs = append(rs, Root{Prop: prop, Harness: "VH_C04_Exit", Params: []int{2, f}, MaxDecs: 2000})
 			}
 			// (three-unit histories were tried for every fault kind: the nine roots did not finish within 2.5 h on 8 workers)
+			if f == 0 {
+				// one unknown statement at an arbitrary position, also inside the transaction
+				rs = append(rs, Root{Prop: prop, Harness: "VH_C04_ExitIns", Params: []int{1, f, 1}, MaxDecs: 2000})
+			}
 		}
 		// Stream-level half: write-back of the position, the next attempt's dump request, exactly-once over attempts
 		rs = append(rs, Root{Prop: prop, Harness: "VH_C07_Attempts", Params: []int{1, 0}, MaxDecs: 6000, MaxSteps: 30000000})
